@@ -9,7 +9,7 @@ RULE = ("scripts: POST/PUT/PATCH (default chunked, or explicit transfer-encoding
         ">= 1 chunk or the terminator emitted; distinct = distinct op lists")
 TRUSTED_BASE = COMMON_TRUSTED_BASE
 ASSUMPTIONS = ["64-bit usize"]
-_stats = {"caps_small": 0, "caps_exact": 0, "finishing": 0, "big_inputs": 0}
+_stats = {"caps_small": 0, "caps_exact": 0, "finishing": 0, "big_inputs": 0, "routes": {}}
 
 
 def hexlen(n):
@@ -36,6 +36,12 @@ def gen_one(rng, big):
     if kind < 0.6 and rng.random() < 0.25:
         first = [op_new("POST", "1.0", "http", "a.test", "/c", [])]          # HTTP/1.0 requests frame an unsized body chunked as well
     ops = first + ["proceed", "write_head #4096"] + (["write_head #4096"] if rng.random() < 0.3 else []) + ["proceed", "q_is_chunked"]
+    if rng.random() < 0.5:
+        # any route into SendBody with a chunked body (lib.send_context): framing on the request / added / default, despite, HTTP/1.0,
+        # explicit Host, the Expect handshake, a second hop, the head written in segments
+        ctx, route = send_context(rng, "chunked")
+        _stats["routes"][route] = _stats["routes"].get(route, 0) + 1
+        ops = ctx + ["q_is_chunked"]
     nops = rng.randrange(1, 13)
     for _ in range(nops):
         r = rng.random()
